@@ -5,6 +5,7 @@ import Driver.SchedStream
 import Driver.ProcStream
 import Driver.RegStream
 import Driver.EngineStream
+import Driver.ClusterStream
 /-
 hwdriver: reads
     stream <name>
@@ -28,6 +29,8 @@ def dispatch (stream : String) : Option (String → String → CaseOut) :=
   | "proc" => some procCase
   | "reg" => some regSeqCase
   | "engine" => some engineCase
+  | "members" => some membersCase
+  | "provider" => some providerCase
   | "regsched" => some regSchedCase
   | _ => none
 
